@@ -208,6 +208,9 @@ class Program:
         if os.environ.get("VSTATIC_NO_INLINE") != "1":
             self.helpers_expanded = expand_new_helpers({m: t for m, _p, _r, _s, t in pending}, load_baseline())
         self.property_names = property_names([t for *_x, t in pending])
+        from . import canon as _canon
+
+        _canon.METHOD_NAMES = _canon.method_names([t for *_x, t in pending])
         for modname, path, rel, src, tree in pending:
             self.modules[modname] = ModuleInfo(modname, path, src, tree=tree, props=self.property_names)
             self.files.append(rel)
